@@ -260,6 +260,37 @@ func runC03(tier string) int {
 			completed = n
 		}
 	}
+	// the size dimension: switches with K cases (all with bodies / every third without / with a default) for every K
+	// up to the scale bound, and switches nested K deep
+	var scaled []engineProgram
+	for _, p := range scaledPrograms(tier) {
+		if strings.Contains(p.Desc, "switch with") || strings.Contains(p.Desc, "block kind 7 ") || strings.Contains(p.Desc, "block kind 8 ") {
+			scaled = append(scaled, p)
+		}
+	}
+	scaledDone := r.Parallel(uint64(len(scaled)), func(w int, i uint64) {
+		p := scaled[i]
+		scripts := []*model.Script{p.Script}
+		src := model.Print(scripts)
+		r.Add("programs", 1)
+		r.Add("scaled_programs", 1)
+		for _, opt := range []bool{true, false} {
+			ok, rej, st, v, out := checkScripts(scripts, src, opt, machine.Lazy, nil)
+			if !ok {
+				r.Report(harness.Violation{Sig: "C03:rejected:" + firstWords(rej, 6), Summary: fmt.Sprintf("%s rejected: %s", p.Desc, rej), Replay: map[string]interface{}{"source": src, "error": rej}})
+				continue
+			}
+			r.Add("evaluations", 1)
+			r.Add("nontrivial", 1)
+			addStats(r, st)
+			if v != nil {
+				r.Report(harness.Violation{Sig: violationSig("C03", v) + ":scaled", Summary: fmt.Sprintf("%s optimize=%v: %s", p.Desc, opt, v), Replay: map[string]interface{}{"desc": p.Desc, "source": src, "optimize": opt, "reference_next_event": v.A.String(), "emitted_next_event": v.B.String(), "observable_prefix": v.Trace, "emitted_assembly": out}})
+			}
+		}
+	})
+	if !scaledDone {
+		r.NotExhaustive("scaled switch programs not completed")
+	}
 	if completed < maxN {
 		r.NotExhaustive(fmt.Sprintf("completed case lists of length <= %d of planned <= %d", completed, maxN))
 	}
@@ -269,7 +300,7 @@ func runC03(tier string) int {
 	r.Assume("reference switch rule: a body-less entry shares the next entry that has a body; trailing body-less entries go to the statement after the switch; default runs iff no case value matches; bodies never fall through; break leaves the switch",
 		"var domain = every case value, its neighbours and 0 (always contains a non-matching value)")
 	return r.Finish(r.Get("evaluations"), r.Get("nontrivial"),
-		"every case list of length n (default at any position or absent) x every assignment of bodies from a 10-body alphabet (empty, cmd, cmd+break, break+dead tail, if-break, while-with-break, nested switch, labelled body with goto into it, cmd+end, if-continue in loops; reduced alphabet at n>=5) x 8 contexts (alone, first/middle/last, in while, in do-while, in another switch, in infinite while, with case values written as constant expressions) x optimize on/off, each also written on a single source line and compiled with line markers (explored again whenever the marker-stripped output differs); non-trivial = >= 2 entries and >= 3 distinct observable events")
+		"every case list of length n (default at any position or absent) x every assignment of bodies from a 10-body alphabet (empty, cmd, cmd+break, break+dead tail, if-break, while-with-break, nested switch, labelled body with goto into it, cmd+end, if-continue in loops; reduced alphabet at n>=5) x 8 contexts (alone, first/middle/last, in while, in do-while, in another switch, in infinite while, with case values written as constant expressions) x optimize on/off, each also written on a single source line and compiled with line markers (explored again whenever the marker-stripped output differs); plus switches with K cases and switches nested K deep for every K up to the scale bounds; non-trivial = >= 2 entries and >= 3 distinct observable events")
 }
 
 // oneLine rewrites a generated source so that every statement sits on one line
